@@ -355,6 +355,23 @@ class Interp(Analyzer):
         return None
 
     def binop(self, op, a, b, ty, frame, st):
+        r = self._binop(op, a, b, ty, frame, st)
+        # provenance of freshly created symbols (used to classify obligations: which inputs does a value depend on)
+        try:
+            out = set()
+            from .absint import syms_of_value
+            syms_of_value(r, out)
+            src = set()
+            syms_of_value(a, src)
+            syms_of_value(b, src)
+            for s_ in out:
+                if '#' in s_ and s_ not in src:
+                    self.sym_deps.setdefault(s_, set()).update(src)
+        except Exception:
+            pass
+        return r
+
+    def _binop(self, op, a, b, ty, frame, st):
         """ty: operand type. returns value"""
         ty = self.subst_ty(ty, frame)
         if op in CMP:
@@ -445,6 +462,10 @@ class Interp(Analyzer):
                 return ('int', self.fresh(st, ty, al // lb_.k, au // lb_.k, 'div'))
             if None not in (al, au, bl, bu) and al >= 0 and bl > 0:
                 return ('int', self.fresh(st, ty, al // bu, au // bl, 'div'))
+            if None not in (al, au, bl, bu) and bl > 0:
+                tr = lambda x, y: -((-x) // y) if x < 0 else x // y     # truncation toward zero
+                c_ = [tr(al, bl), tr(al, bu), tr(au, bl), tr(au, bu)]
+                return ('int', self.fresh(st, ty, min(c_), max(c_), 'div'))
             return ('int', self.fresh(st, ty))
         if base == 'Rem':
             if lb_.is_const() and lb_.k > 0 and al is not None and al >= 0:
@@ -529,6 +550,7 @@ class Interp(Analyzer):
         l, u = st.lb(lin), st.ub(lin)
         if l is not None and u is not None and l >= lo and u <= hi:
             return ('int', lin)
+        self.lossy_casts.setdefault(frame.body.path, []).append((from_ty, to_ty, l, u))
         va = st.values(lin)
         if va is not None:
             bits = {'u8': 8, 'u16': 16, 'u32': 32, 'u64': 64, 'usize': 64, 'u128': 128, 'i8': 8, 'i16': 16, 'i32': 32, 'i64': 64, 'isize': 64, 'i128': 128}[to_ty]
@@ -898,6 +920,13 @@ class Interp(Analyzer):
                 c = fv[1]
                 name = strip_generics(strip_turbofish(c.get('fn', '')))
                 rname = name
+        for suf, store in self.call_probes.items():
+            if name.endswith(suf) or rname.endswith(suf):
+                rec = []
+                for a in args:
+                    l_ = self.as_int(a, st) if a[0] in ('int', 'bool') else None
+                    rec.append(None if l_ is None else (st.lb(l_), st.ub(l_)))
+                store.append({'site': t.sp, 'caller': frame.body.path, 'args': rec})
         res = None
         handled = False
         if name.startswith('core::panicking::') or name in ('core::option::expect_failed', 'core::result::unwrap_failed', 'core::option::unwrap_failed'):
@@ -922,7 +951,31 @@ class Interp(Analyzer):
                         break
             if body is None and c.get('trait') and c.get('ga'):
                 body = self.resolve_trait_impl(c['trait'], [self.subst_ty(g, frame) for g in c['ga']], c.get('fn', '').split('::')[-1])
-            if body is not None and frame.depth < self.max_depth and body.raw_path not in [f for f in frame.chain()[:1] if False] \
+            if body is None and c.get('trait') and c['trait'].split('::')[0] in ('lorawan', 'lorawan_device', 'lora_phy', 'lora_modulation') \
+                    and frame.depth < self.max_depth:
+                # class-hierarchy resolution: the receiver type is a type parameter; analyse every workspace impl and join
+                cands = self.trait_method_impls(c['trait'], c.get('fn', '').split('::')[-1])
+                cands = [b_ for b_ in cands if not b_.coroutine and frame.chain().count(b_.path) == 0]
+                if 1 <= len(cands) <= 8:
+                    joined = None
+                    rvs = []
+                    for i_, b_ in enumerate(cands):
+                        s2 = st.copy()
+                        rv = self.call_body(b_, list(args), frame, s2, self.make_subst(b_, {'ga': []}, frame), site=t.sp)
+                        if rv is None:
+                            continue
+                        key = (frame.id, 2 * 10**6)
+                        s2.env[key] = rv
+                        joined = s2 if joined is None else join_states(self, joined, s2, frame.id, 3 * 10**6 + (__import__('zlib').crc32((t.sp or '').encode()) % 1000), False)[0]
+                    if joined is None:
+                        return []
+                    res = joined.env.pop((frame.id, 2 * 10**6), TOP)
+                    st.env, st.mem, st.lo, st.hi, st.sets, st.cons = joined.env, joined.mem, joined.lo, joined.hi, joined.sets, joined.cons
+                    self.cha_log[c['trait'] + '::' + c.get('fn', '').split('::')[-1]] = len(cands)
+                    handled = True
+            if handled:
+                pass
+            elif body is not None and frame.depth < self.max_depth and body.raw_path not in [f for f in frame.chain()[:1] if False] \
                     and frame.chain().count(body.path) == 0 and not body.coroutine:
                 subst = self.make_subst(body, c, frame)
                 res = self.call_body(body, args, frame, st, subst, site=t.sp)
@@ -973,6 +1026,22 @@ class Interp(Analyzer):
         self._trait_cache[key] = r
         return r
 
+    def trait_method_impls(self, trait, method):
+        key = ('*', trait, method)
+        if key in self._trait_cache:
+            return self._trait_cache[key]
+        out = []
+        for im in self.prog.impls:
+            if im.get('trait') != trait:
+                continue
+            for it in im['items']:
+                if it['name'] == method:
+                    b = self.prog.bodies.get(it['path'])
+                    if b is not None:
+                        out.append(b)
+        self._trait_cache[key] = out
+        return out
+
     def _model_by_suffix(self, nm):
         for suf, m in self.suffix_models:
             if nm.endswith(suf):
@@ -996,9 +1065,41 @@ class Interp(Analyzer):
         self.havoc_log[name] = self.havoc_log.get(name, 0) + 1
         for a, op in zip(args, t.args):
             ty = op.ty or ''
-            if ty.startswith('&mut ') or 'Pin<&mut' in ty:
-                self.havoc_target(a, frame, st)
+            if '&mut ' in ty:
+                self.havoc_reachable(a, frame, st, 0, ty.startswith('&mut ') or 'Pin<&mut' in ty)
         return None
+
+    def havoc_reachable(self, v, frame, st, depth, top_mut):
+        """forget everything an unknown callee may write: memory behind every reference reachable from an argument
+        whose type mentions `&mut` (references nested in aggregates / arrays / slices of aggregates included)"""
+        if depth > 6 or not isinstance(v, tuple) or not v:
+            return
+        k = v[0]
+        if k == 'ref':
+            inner = self.read_ptr(v[1], frame, st)
+            self.havoc_reachable(inner, frame, st, depth + 1, True)
+            self.havoc_target(v, frame, st)
+        elif k == 'sref':
+            # elements may themselves hold references (e.g. a slice of SPI operations)
+            base = v[1]
+            if base[0] in ('L', 'O') and len(base) >= 3:
+                arr = self.read_ptr(base, frame, st)
+                if arr[0] == 'array':
+                    for e in list(arr[2].values()) + ([arr[3]] if arr[3] is not None else []):
+                        self.havoc_reachable(e, frame, st, depth + 1, True)
+            self.havoc_slice(v, st)
+        elif k == 'adt':
+            for f in v[3].values():
+                self.havoc_reachable(f, frame, st, depth + 1, False)
+        elif k == 'tuple':
+            for f in v[1]:
+                self.havoc_reachable(f, frame, st, depth + 1, False)
+        elif k == 'array':
+            for e in list(v[2].values()) + ([v[3]] if v[3] is not None else []):
+                self.havoc_reachable(e, frame, st, depth + 1, False)
+        elif k == 'closure':
+            for f in v[2]:
+                self.havoc_reachable(f, frame, st, depth + 1, False)
 
     def havoc_target(self, a, frame, st):
         if a[0] == 'sref':
@@ -1272,6 +1373,33 @@ def states_equal(a, b):
     return a.env == b.env and a.lo == b.lo and a.hi == b.hi and a.sets == b.sets and a.cons == b.cons and a.mem == b.mem
 
 
+def analyze_async_entry(an, body, subst=None):
+    """entry analysis of an `async fn`: run the shell (which builds the coroutine from the parameters), then the
+    coroutine body with that state"""
+    st = State()
+    fr = Frame(body, subst or {}, 0, None, 'entry')
+    fr.id = 'E'
+    an._site = 'E'
+    an._ctr = 0
+    an._frame_by_id[fr.id] = fr
+    for i in range(1, body.argc + 1):
+        nm = body.local_name(i) or ('arg%d' % i)
+        st.env[(fr.id, i)] = an.materialize(body.locals[i], 'p%d_%s' % (i, nm), st, fr)
+    out = an.run_body(fr, st)
+    if out is None:
+        return fr, None
+    rv = out.env.get((fr.id, 0))
+    if rv is None or rv[0] != 'closure':
+        return fr, out
+    l = an.prog.by_short.get(strip_turbofish(rv[1]))
+    if not l or len(l) != 1:
+        return fr, out
+    an._site = 'E.co'
+    an._ctr = 0
+    r = an.call_body(l[0], [rv, TOP], fr, out, dict(fr.subst), site='await')
+    return fr, out
+
+
 DIVERGE = ('diverge',)
 
 
@@ -1279,6 +1407,10 @@ def new_analyzer(prog, **kw):
     an = Interp(prog, **kw)
     an._anon = 0
     an._live = {}
+    an.sym_deps = {}
+    an.cha_log = {}
+    an.call_probes = {}
+    an.lossy_casts = {}
     an._trait_cache = {}
     an._frame_by_id = {}
     an.construct_checks = {}
